@@ -89,6 +89,10 @@ func (em *emitter) emitNodes(nodes []ast.Node) {
 					inits := em.emitImport(node, true)
 					if len(inits) > 0 && !em.alreadyInitializedTemplatePkgs[node.Tree.Path] {
 						for _, initFunc := range inits {
+							if em.alreadyCalledTemplateInits[initFunc.File] {
+								continue
+							}
+							em.alreadyCalledTemplateInits[initFunc.File] = true
 							index := em.fb.addFunction(initFunc)
 							em.fb.emitCallFunc(index, em.fb.currentStackShift(), nil)
 						}
